@@ -77,6 +77,15 @@ package tcp
 //@
 //@ // ending a direction sends no payload: the peer is told that the stream is over (half-close where possible, close
 //@ // otherwise); nothing is consumed from or delivered to either stream
+//@ // the connections the TCP server hands to the proxies wrap the accepted connection: the wrapper has to pass the
+//@ // half-close on, otherwise ending the upstream->client direction closes the client connection altogether and what
+//@ // the client still sends is lost
+//@ func (*conn).CloseWrite
+//@   props C09
+//@   requires c != nil && c.c != nil
+//@   assigns nothing
+//@   ensures nopanic
+//@
 //@ func closeWrite
 //@   props C09
 //@   requires c != nil
